@@ -21,10 +21,70 @@ _s_quick = [inst("internal/container", "VHStackStep", {"L": l, "S": s}, must_rea
 _s_thor = [inst("internal/container", "VHStackStep", {"L": l, "S": s}, must_reach=["push", "size", "clear"]) for l in range(0, 9) for s in (0, 1, 2, 3)]
 CHECKS["C20"] = dict(
     level="model_checking",
+    claim="Bounded symbolic execution of the real Queue/Stack SSA: one operation from every state satisfying the representation invariant "
+          "(every head/tail position at each listed capacity, symbolic contents) plus bounded runs from the zero value, each compared with a "
+          "list model; every assertion is discharged by the SMT solver or by term normalisation, for all 64-bit element values.",
+    note="Bounds: capacities and run lengths in evidence.bounds. The step from 'every operation from every invariant state is correct' to "
+         "'every history' is a paper argument. gosym's SSA semantics and the solvers are trusted.",
     instances=dict(quick=_q_quick + _r_quick + _s_quick, thorough=_q_thor + _r_thor + _s_thor),
     assumptions=[
         "queue pre-states range over the capacity-agnostic representation invariant of DESIGN B.2 for the capacities listed in bounds",
         "element type instantiated at int; elements are unconstrained 64-bit symbols",
     ],
     trusted_base=["paper step from 'every operation from every invariant state is correct' to 'every history is correct'"],
+)
+
+# ---------------------------------------------------------------- C19
+_c19_q = [inst("root", "VHNumeric", {"FN": f}, solver="cvc5", timeout_ms=300000) for f in range(6)]
+_c19_q += [inst("root", "VHConversions", {"CASE": c}, solver="cvc5", workers=2) for c in (0, 1, 2, 3)]
+_c19_q += [inst("root", "VHConversions", {"CASE": 4}, solver="z3", workers=4)]
+_c19_q += [inst("root", "VHRoundPlaces", {"N": n, "B": 10}, solver="cvc5", timeout_ms=900000) for n in (0, 1, 2)]
+_c19_t = _c19_q + [inst("root", "VHRoundPlaces", {"N": 3, "B": 10}, solver="cvc5", timeout_ms=3000000)]
+CHECKS["C19"] = dict(
+    level="model_checking",
+    claim="Each clause of the property is one floating-point SMT obligation over the real built-in, reached by name through the real function "
+          "table and reflection bridge: unsat of the negation means it holds for every double |x| < 2^52 (round_places: for the listed n and "
+          "magnitude bound). Conversions are decided on symbolic booleans, symbolic digit strings and all byte strings up to the bound.",
+    note="reflect's semantics are supplied by the engine from go/types; math.Floor/Ceil/Trunc/Round are fp.roundToIntegral; strconv's digit "
+         "generation and the numeric value of non-integer literals are outside the claim (uninterpreted).",
+    instances=dict(quick=_c19_q, thorough=_c19_t),
+    assumptions=["|x| < 2^52, x not NaN (as in the property)", "round_places: |x| < 2^B, n = N as listed in bounds; slack of 2 ulp(x) for the double rounding",
+                 "number(string(x)) round trip decided for integral x in [-999, 9999] (symbolic digits); non-integral display forms are strconv's",
+                 "strings of at most 4 (number) / 5 (bool) arbitrary bytes"],
+    trusted_base=["reflect semantics supplied by the engine from go/types", "strconv.ParseFloat value as an uninterpreted function except for integer literals",
+                  "math.Floor/Ceil/Trunc/Round = fp.roundToIntegral RTN/RTP/RTZ/RNA"],
+)
+
+# ---------------------------------------------------------------- C02
+CHECKS["C02"] = dict(
+    level="model_checking",
+    claim="The real evaluateExpression is executed symbolically on one binary/unary node with an arbitrary 64-bit operator code and operands of "
+          "every pair of kinds (all IEEE doubles, all booleans, all strings of 0..2 bytes) and compared with an independently written operator "
+          "table; evaluation order and short-circuiting are decided on call trees whose leaves are probe functions with symbolic results.",
+    note="Precedence/associativity (which tree a text parses to) is decided by the ANTLR runtime and is outside the claim; the Go side of "
+         "spellings (token type -> operator) is the listener harness. math.Mod is uninterpreted.",
+    instances=dict(
+        quick=[inst("root", "VHBinaryTable", solver="cvc5", workers=8, must_reach=["known-operator", "unknown-operator"]),
+               inst("root", "VHUnary", solver="cvc5"),
+               inst("root", "VHEvalOrder", solver="z3", workers=4, must_reach=["short-circuit", "both-evaluated"])],
+        thorough=[inst("root", "VHBinaryTable", solver="cvc5", workers=8, must_reach=["known-operator", "unknown-operator"]),
+                  inst("root", "VHUnary", solver="cvc5"),
+                  inst("root", "VHEvalOrder", solver="z3", workers=8, must_reach=["short-circuit", "both-evaluated"])]),
+    assumptions=["operands: every pair of kinds, doubles over the whole IEEE domain, strings of 0..2 arbitrary bytes; operator code any 64-bit int",
+                 "math.Mod is an uninterpreted function (the check is that % is math.Mod of the operands in order)",
+                 "precedence/associativity resolution (ANTLR) is outside the claim"],
+)
+
+# ---------------------------------------------------------------- C03
+CHECKS["C03"] = dict(
+    level="model_checking",
+    claim="Inductive step on the real executeSetStatement/executeDeclareStatement and InMemoryStorer: from an arbitrary store (two variables, "
+          "each absent or of any type with symbolic value), one set/declare with an arbitrary operator code and right-hand side, compared with "
+          "the assignment table; failure leaves the store unchanged; one name never under two types; a host write is what is read next.",
+    note="Host storers violating the Storer contract are outside the claim. Strings bounded to 2 bytes; doubles unrestricted.",
+    instances=dict(
+        quick=[inst("root", "VHSetStatement", solver="cvc5", workers=12, must_reach=["failed", "succeeded", "host-write"])],
+        thorough=[inst("root", "VHSetStatement", solver="cvc5", workers=16, must_reach=["failed", "succeeded", "host-write"])]),
+    assumptions=["two variables v, w each absent or of any type; strings of 0..2 arbitrary bytes; doubles unrestricted; operator code any int",
+                 "host storers that violate the Storer contract are outside the claim"],
 )
